@@ -150,8 +150,23 @@ def edge_labels(e):
     return out
 
 
-def render_xml(m, rng=None, gui=True):
-    """rng (optional) shuffles label order inside transitions and adds GUI noise."""
+def render_xml(m, rng=None, gui=True, cdata=False):
+    """rng (optional) shuffles label order inside transitions and adds GUI noise; cdata: some text blocks are written
+    as (or partly as) CDATA sections instead of with entity escapes - the same character data for an XML parser."""
+    from .xmlgen import esc as plain_esc
+
+    def esc(text):
+        if not cdata or rng is None or not text or "]]>" in text or rng.random() > 0.3:
+            return plain_esc(text)
+        x = rng.random()
+        if x < 0.9 or cdata != "mixed":
+            return "<![CDATA[" + text + "]]>"
+        cut = rng.randrange(1, len(text)) if len(text) > 1 else 0
+        if cut == 0:
+            return plain_esc(text)
+        if x < 0.95:
+            return plain_esc(text[:cut]) + "<![CDATA[" + text[cut:] + "]]>"
+        return "<![CDATA[" + text[:cut] + "]]>" + plain_esc(text[cut:])
     o = [HEADER, "<nta>\n<declaration>", esc(decls_text(m["gdecl"])), "</declaration>\n"]
     for t in m["templates"]:
         o.append('<template>\n<name x="5" y="5">%s</name>\n' % t["name"])
@@ -312,7 +327,7 @@ def scope_env(m, t=None, edge=None, extra_owner=None):
     owners = {}
     var_types = {}
     if t is not None:
-        tn = "T:" + t["name"]
+        tn = ("D:" if t.get("dynamic") else "T:") + t["name"]
         for p in t["params"]:
             owners[p["name"]] = tn + ".param"
         for d in t["decls"]:
@@ -336,7 +351,7 @@ def comma(dumps):
 def expected(m):
     """Expected canonical document (same shape as the relevant parts of the driver's dump), at builder level."""
     genv = scope_env(m)
-    exp = {"globals": [], "templates": [], "instances": [], "processes": []}
+    exp = {"globals": [], "templates": [], "dyn_templates": [], "instances": [], "processes": []}
     for d in m["gdecl"]:
         if d["kind"] == "var":
             exp["globals"].append({"name": d["name"], "type": type_dump(d["type"], genv),
@@ -369,7 +384,7 @@ def expected(m):
                   "assign": comma([G.dump(a, eenv) for a in e["assign"]]) if e.get("assign") else None,
                   "prob": G.dump(e["prob"], eenv) if e.get("prob") is not None else None}
             et["edges"].append(ee)
-        exp["templates"].append(et)
+        exp["dyn_templates" if t.get("dynamic") else "templates"].append(et)
     tmap = {t["name"]: t for t in m["templates"]}
     imap = {}
     for i in m["insts"]:
@@ -441,7 +456,10 @@ def compare(exp, doc, analysed=False):
             d("globals:init", "global %s: initialiser %s, expected %s" % (w["name"], g["init"], w["init"]))
     if len(exp["templates"]) != len(doc["templates"]):
         d("templates:count", "expected %d templates, found %d" % (len(exp["templates"]), len(doc["templates"])))
-    for w, g in zip(exp["templates"], doc["templates"]):
+    gdyn = doc.get("dyn_templates") or []
+    if len(exp.get("dyn_templates", [])) != len(gdyn):
+        d("dyn-templates:count", "expected %d dynamic templates, found %d" % (len(exp.get("dyn_templates", [])), len(gdyn)))
+    for w, g in list(zip(exp["templates"], doc["templates"])) + list(zip(exp.get("dyn_templates", []), gdyn)):
         tn = w["name"]
         if g["name"] != tn:
             d("template:name-or-order", "expected template %s, found %s" % (tn, g["name"]))
@@ -632,7 +650,11 @@ class ModelGen:
                 out.append(("assign", "ASSIGN", ("id", r.choice(clocks)), ("int", 0)))
         return out
 
-    def model(self, priorities=None, branchpoints=True, params=True, partial=True):
+    # words that are keywords of the 4.x model syntax only: the XML reader lets them through as <name> of a location
+    KW_LOCATION_NAMES = ["select", "for", "while", "do", "if", "else", "default", "return", "typedef", "struct", "meta",
+                         "progress", "gantt", "assert", "IO", "xor", "string", "import"]
+
+    def model(self, priorities=None, branchpoints=True, params=True, partial=True, dynamic=False, kwnames=False):
         r = self.rng
         m = {"gdecl": [], "templates": [], "insts": [], "system": [], "queries": []}
         # ---- globals
@@ -723,6 +745,10 @@ class ModelGen:
             nL = r.randint(1, self.maxL)
             for li in range(nL):
                 loc = {"id": self.fresh_id(), "name": ("L%d" % li) if r.random() < 0.75 else None, "inv": None, "rate": None, "flag": None}
+                if kwnames and r.random() < 0.05:
+                    kn = r.choice(self.KW_LOCATION_NAMES)
+                    if kn not in [l["name"] for l in t["locations"]]:
+                        loc["name"] = kn
                 x = r.random()
                 if x < 0.35:
                     loc["inv"] = self.invariant(ints, clocks)
@@ -782,9 +808,24 @@ class ModelGen:
             if r.random() < 0.5:
                 t["edges"].sort(key=lambda e: locids.index(e["src"]) if e["src"] in locids else 999)
             m["templates"].append(t)
+        # ---- a dynamic template: declared in the globals, defined by a <template> of that name, never instantiated
+        if dynamic and r.random() < 0.25:
+            dp = [{"name": "dp%d" % i, "type": ("int",), "ref": False, "kind": "vint"} for i in range(r.randint(0, 2))]
+            l0, l1 = self.fresh_id(), self.fresh_id()
+            dt = {"name": "D0", "params": dp, "dynamic": True, "branchpoints": [], "init": l0,
+                  "decls": [{"kind": "var", "name": "dl", "type": ("int",), "init": None}] if r.random() < 0.5 else [],
+                  "locations": [{"id": l0, "name": "DA", "inv": None, "rate": None, "flag": None},
+                                {"id": l1, "name": None, "inv": None, "rate": None, "flag": None}],
+                  "edges": [{"src": l0, "dst": l1, "control": None, "select": [], "sync": None, "prob": None,
+                             "guard": ("bin", "GT", ("id", dp[0]["name"]), self.lit()) if dp and r.random() < 0.5 else None,
+                             "assign": []}]}
+            m["gdecl"].append({"kind": "raw", "name": "", "text": "dynamic D0(%s);" % ", ".join(param_text(p) for p in dp)})
+            m["templates"].insert(r.randint(0, len(m["templates"]) - (1 if r.random() < 0.7 else 0)), dt)
         # ---- system
         procs = []
         for t in m["templates"]:
+            if t.get("dynamic"):
+                continue
             if not t["params"]:
                 if r.random() < 0.7:
                     procs.append(t["name"])
@@ -828,11 +869,11 @@ class ModelGen:
                     procs.append(nm)
         if not procs:
             # make sure the system is not empty
-            t = m["templates"][0]
+            t = [x for x in m["templates"] if not x.get("dynamic")][0]
             if t["params"]:
                 t["params"] = []
                 # drop uses of parameters: regenerate would be simpler; instead start over
-                return self.model(priorities, branchpoints, params=False, partial=partial)
+                return self.model(priorities, branchpoints, params=False, partial=partial, dynamic=dynamic, kwnames=kwnames)
             procs.append(t["name"])
         if r.random() < 0.3:
             qs = []
